@@ -328,7 +328,21 @@ class C14(World):
                     self.violate("C14", "I5-credentials", "wrong-user",
                                  f"{where}: carries USERID={info['userid']!r}, instance is configured for {slot.userid!r}")
                 exp = slot.url if op.mode == "skip" else slot.fi.svc_url
-                if dest != split_url(exp):
+                if op.mode != "skip" and slot.fi.inv_url:
+                    # two advertised URLs: every message set in the request must be advertised at the destination
+                    # (nothing advertises the tax message set: either is accepted)
+                    ok_urls = {slot.fi.svc_url, slot.fi.inv_url}
+                    for k in kinds:
+                        if k == "INVSTMTMSGSRQV1":
+                            ok_urls &= {slot.fi.inv_url}
+                        elif k != "TAX1099MSGSRQV1":
+                            ok_urls &= {slot.fi.svc_url}
+                    if dest not in {split_url(u) for u in ok_urls}:
+                        self.violate("C14", "I5-destination", "credentials-to-wrong-url",
+                                     f"{where}: carries {sorted(kinds)}; the profile advertises the bank/card/sign-up "
+                                     f"message sets at {slot.fi.svc_url} and investment statements at {slot.fi.inv_url}",
+                                     mode=op.mode)
+                elif dest != split_url(exp):
                     self.violate("C14", "I5-destination", "credentials-to-wrong-url",
                                  f"{where}: request with the user's credentials went there, expected {exp} "
                                  f"({'configured URL, profile skipped' if op.mode == 'skip' else 'service URL advertised by the institution at ' + slot.url})",
@@ -440,6 +454,11 @@ class C14(World):
             fi.behaviour_fn = self.behaviour
             fi.cookie_attrs = ch.flag("fi.cookie_attrs", 0.3)
             fi.closing = [("Y", "Y"), ("N", "Y"), ("Y", "N"), ("N", "N")][ch.weighted("fi.closingavail", [3, 1, 1, 1])]
+            if "INV" in fi.msgsets and ("BANK" in fi.msgsets or "CC" in fi.msgsets) and ch.flag("fi.split_inv_url", 0.15):
+                # investment statements served elsewhere: the profile advertises two different URLs
+                scheme, host, port, target = peers.url_parts_q(fi.svc_url)
+                fi.set_inv_url(self.net, f"{scheme}://{host}:{port}/invest{fi.index}")
+                sim.count("probe.profiles_with_two_service_urls")
             fi.profiles.clear()
             fi.current = None
             fi.new_profile()
